@@ -265,6 +265,22 @@ func (s *Session) ghostAssign(st *State, env *Env, a Assign) {
 		v := env.ghostVal(g)
 		s.setH(st, ghostKey(g.Name), v.T.Sort, rhs.T)
 	case *EIndex:
+		if inner, ok2 := l.X.(*EIndex); ok2 {
+			// g[i][j] = v
+			id, ok := inner.X.(*EIdent)
+			if !ok {
+				fatalf("%s: unsupported ghost assignment %s", s.name, a.Src)
+			}
+			g := env.ghostDecl(id.Name)
+			if g == nil {
+				fatalf("%s: ghost assignment to unknown ghost %s", s.name, id.Name)
+			}
+			v := env.ghostVal(g)
+			i1 := env.eval(inner.I)
+			i2 := env.eval(l.I)
+			s.setH(st, ghostKey(g.Name), v.T.Sort, Store(v.T, i1.T, Store(Select(v.T, i1.T), i2.T, rhs.T)))
+			return
+		}
 		id, ok := l.X.(*EIdent)
 		if !ok {
 			fatalf("%s: unsupported ghost assignment %s", s.name, a.Src)
